@@ -446,14 +446,20 @@ def replay_history(rp=None):
         "b2=oneliner.convert_code_string(src, configs=fresh)\n"
         "oneliner.convert_code_string(loop)\n"
         "c1=oneliner.convert_code_string(src)\n"
-        "print(json.dumps([norm(b)==norm(b2), norm(c1)==norm(a)]))\n")
+        # option objects that were modified and have died: later objects (possibly at the same address) start from the defaults
+        "dflt=(C.Configs().unparser, C.Configs().expr_wrapper, C.Configs().if_style)\n"
+        "for _ in range(300):\n    o=C.Configs(); o.unparser='oneliner'; o.expr_wrapper='list'; o.if_style='short_circuit'; del o\n"
+        "later=[C.Configs() for _ in range(64)]\n"
+        "clean=all((o.unparser, o.expr_wrapper, o.if_style)==dflt for o in later)\n"
+        "c2=oneliner.convert_code_string(src, configs=later[0]); c3=oneliner.convert_code_string(src)\n"
+        "print(json.dumps([norm(b)==norm(b2), norm(c1)==norm(a), clean and norm(c2)==norm(a) and norm(c3)==norm(a)]))\n")
     out, err = _fresh_process(code)
     try:
         import json as _j
         ok = _j.loads(out.splitlines()[-1])
     except Exception:  # noqa: BLE001
         return dict(reproduced=False, observed=out, stderr=err)
-    return dict(reproduced=not all(ok), same_after_option_change=ok[0], same_after_other_conversion=ok[1], program=code)
+    return dict(reproduced=not all(ok), same_after_option_change=ok[0], same_after_other_conversion=ok[1], defaults_after_dead_option_objects=ok[2], program=code)
 
 
 REPLAY = {"srcs-raise": replay_srcs_raise, "src-text": replay_src_text, "history-pairs": replay_history_pairs, "history": replay_history, "leak": replay_leak, "illegal": replay_illegal, "hashseed": replay_hashseed, "rng": replay_rng, "frame": replay_frame}
@@ -461,3 +467,6 @@ REPLAY = {"srcs-raise": replay_srcs_raise, "src-text": replay_src_text, "history
 from suites import thorough as _th
 GROUPS["thorough:history"] = _th.bounded_from_replay("bounded/api-history", replay_history)
 GROUPS["thorough:history-pairs"] = _th.bounded_from_replay("bounded/two-conversion-histories", replay_history_pairs)
+
+# bounded stand-ins for undecided obligations (olvc/oblig.py::main_check)
+STANDINS = {"*": [dict(kind="history"), dict(kind="history-pairs"), dict(kind="hashseed")]}
